@@ -33,6 +33,37 @@ def redeclare(rng, r):
     if not cands:
         return 0
     k = 0
+    # a constraint that is already SATISFIED at compile time (a constant declared on both ends of a wire) sitting, in
+    # constraint order, before one that stays undecided: the first name-sorted port gets the matching constant, a later
+    # port of the same subroutine a declaration over its parameters
+    parents = {}
+
+    def walk(n):
+        for c in n["children"]:
+            parents[id(c)] = n
+            walk(c)
+    walk(r)
+    multi = [n for n in nodes if len([p for p in n["ports"] if p["direction"] in ("input", "through")]) >= 2]
+    if multi and rng.random() < 0.35:
+        n = rng.choice(multi)
+        par = parents[id(n)]
+        ps = sorted([p for p in n["ports"] if p["direction"] in ("input", "through")], key=lambda p: p["name"])
+        first = ps[0]
+        src = [c[0] for c in par["connections"] if c[1] == f"{n['name']}.{first['name']}"]
+        if src:
+            if "." in src[0]:
+                owner = next((c for c in par["children"] if c["name"] == src[0].split(".")[0]), None)
+                pname = src[0].split(".")[1]
+            else:
+                owner, pname = par, src[0]
+            sp = next((p for p in (owner["ports"] if owner else []) if p["name"] == pname), None)
+            # only a port whose size is declared right there (a leaf's output, or an input of the root)
+            if sp is not None and ((owner is not par and not owner["children"]) or (owner is par and par is r)):
+                cst = E.num(rng.randint(1, 3))
+                sp["size"] = cst
+                first["size"] = cst
+                k += 1
+                cands = [(m, p) for m, p in cands if m is n and p is not first] or cands
     # a symbol shared by two ports that are NOT neighbours in name order, another bare symbol in between
     wide = [n for n in nodes if len([p for p in n["ports"] if p["direction"] in ("input", "through")]) >= 3]
     if wide and rng.random() < 0.5:
